@@ -217,7 +217,8 @@ def _build(size, k, cfg):
     pa, Cx = _spec(n, cfg["pp"], cfg["ps"], k, "pri")
     marg, mu = _mean(cfg["mean"], n, k)
     x = Gaussian(marg, geometry=n, **{cfg["pp"]: pa})
-    y = Gaussian(M(x), **{cfg["lp"]: la})
+    # link="model": the model object itself is the mean (its argument is already called x), not a renamed copy M(x)
+    y = Gaussian(M if cfg.get("link") == "model" else M(x), **{cfg["lp"]: la})
     b = refs.dyadic_vec(m, k + 1)
     P = _Problem()
     P.BP = BayesianProblem(y, x).set_data(y=b.copy())
@@ -609,6 +610,21 @@ def _eval_lg(cell):
                                          x0v.tolist(), _cfgstr(cfg), "; ".join(kinds2[q] for q in KIND_ORDER if q in kinds2)),
                                      focus={"size": list(size), "config": cfg, "x0": x0v}, **(obs2 or {}))
                             break
+            # ---- ML() on the SAME problem object after MAP() ran on it (history: estimates must not disturb each other)
+            if mean == "zerovec" and not precov:
+                cfg3 = dict(cfg, link="model")
+                prep3 = _prepare(size, k, cfg3)
+                _op_estimate(size, k, cfg3, "MAP", prep=prep3)          # history step 1 on this object
+                st3, kinds3, obs3 = _op_estimate(size, k, cfg3, "ML", prep=prep3)
+                res.transitions += 1
+                res.outcomes.add("ML-after-MAP:" + st3 + (":" + "+".join(sorted(kinds3)) if kinds3 else ""))
+                if st3.startswith("judged"):
+                    res.evaluations += 1
+                    if kinds3:
+                        res.fail("C15|BayesianProblem.ML|%s-%s|after-MAP-on-same-object" % (_oplabel(st3), _primary(kinds3)),
+                                 "ML() called after MAP() on the same problem object, %s: %s" % (
+                                     _cfgstr(cfg), "; ".join(kinds3[q] for q in KIND_ORDER if q in kinds3)),
+                                 focus={"size": list(size), "config": cfg}, **(obs3 or {}))
             # ---- direct sampling
             st, kinds, obs = _op_sample(size, k, cfg, prep=prep)
             res.transitions += 1
